@@ -42,7 +42,7 @@ CONSTANTS Cases,           \* set of cases explored by the model
           DevNoPattern,    \* deviation: [ patterns ] veto removed
           DevKeepRemoved,  \* deviation: interactions touching removed atoms are written       (m03)
           DevF13,          \* deviation (finding F13, repaired): residue attributes missing on the atoms of the first residue
-          DevVerKey,       \* deviation (finding, open): WriteBack also drops every interaction whose VERSION number equals the node key of a removed atom
+          DevVerKey,       \* deviation (finding F17, repaired): WriteBack also drops every interaction whose VERSION number equals the node key of a removed atom
           DevDangEnd,      \* deviation: a dangling interaction is also expected in windows that stick out of the chain end
           DevDegree        \* deviation (C10): degree filter of find_connecting_edges compares the wrong way (m12)
 
